@@ -197,3 +197,24 @@ contract(MAC + '.generate_variant_bytecode_parts', name='placeholders', props=['
 contract('bespokeasm.assembler.model.operand:ParsedOperand.operand_argument_string', name='arg-placeholder-text',
          props=['C10'], returns='str?', may_raise={'SystemExit': 'True'},
          ensures=['(result is None) == (self._argument is None)'], modifies=[], no_frame_check=True)
+
+
+# ---- @OP(n) is the n-th operand AS WRITTEN: every operand type keeps the operand text it was given ------------------------
+# (the indirect / deferred numeric operand used to keep only the text inside its brackets: fix d316bf2)
+OPT = 'bespokeasm.assembler.model.operand.types.'
+KEEPS_TEXT = 'implies(result is not None, result._operand_str == operand)'
+contract(OPT + 'indirect_numeric:IndirectNumericOperand.parse_operand', name='indirect-numeric-operand-text', props=['C10'],
+         returns='ParsedOperand?', requires=['"argument" in self._config', '"size" in self._config["argument"]'],
+         may_raise={'SystemExit': 'True', 'SyntaxError': 'True', 'KeyError': 'True', 'AttributeError': 'True', 'ValueError': 'True'},
+         ensures=[KEEPS_TEXT], modifies=[], allocates=True, no_frame_check=True)
+for _k, _n in ((OPT + 'register:RegisterOperand.parse_operand', 'register'),
+               (OPT + 'indirect_register:IndirectRegisterOperand.parse_operand', 'indirect-register'),
+               (OPT + 'relative_address:RelativeAddressOperand.parse_operand', 'relative-address'),
+               (OPT + 'numeric_bytecode:NumericBytecode.parse_operand', 'numeric-bytecode'),
+               (OPT + 'numeric_expression:NumericExpressionOperand.parse_operand', 'numeric'),
+               (OPT + 'empty:EmptyOperand.parse_operand', 'empty')):
+    contract(_k, name=_n + '-operand-text', props=['C10'], returns='ParsedOperand?',
+             requires=['"argument" in self._config', '"size" in self._config["argument"]'] if _n in ('numeric', 'relative-address') else [],
+             may_raise={'SystemExit': 'True', 'SyntaxError': 'True', 'KeyError': 'True', 'AttributeError': 'True',
+                        'ValueError': 'True'},
+             ensures=[KEEPS_TEXT], modifies=[], allocates=True, no_frame_check=True)
